@@ -544,6 +544,33 @@ def opSignOps (req : Json) : Except String Json := do
   pure (okJson (Json.mkObj [("keyids", .arr (ids.map ofStr).toArray),
     ("path", match path with | none => .null | some p => ofStr p)]))
 
+/-- A sequence of record start / stop / run calls over several (step name, key) pairs in one directory:
+per call whether it succeeds, and per slot mentioned the two files at the end. -/
+def opDirOps (req : Json) : Except String Json := do
+  let opsJ ← arr (← field req "ops")
+  let ops ← opsJ.mapM (fun j => do
+    let slot : Slot := ((← toStr (← field j "name")), (← toStr (← field j "key")))
+    match (← field j "op") with
+    | .str "start" => do pure (DirOp.start slot (← digestDictOf (← field j "materials")))
+    | .str "stop" => do pure (DirOp.stop slot (← digestDictOf (← field j "products")))
+    | .str "run" => do pure (DirOp.run slot (← digestDictOf (← field j "materials")) (← digestDictOf (← field j "products")))
+    | _ => throw "bad dir op")
+  let r := runDirOps DirState.empty ops
+  let slots := dedup (ops.map DirOp.slot)
+  let dictJson (x : Dict Str RecVal) : Json := .arr (x.map (fun (k, v) => Json.arr #[ofStr k, recValJson v])).toArray
+  let slotJson (s : Slot) : Json :=
+    let d := r.1 s
+    Json.mkObj [("name", ofStr s.1), ("key", ofStr s.2),
+      ("prelim", match d.prelim with
+        | .absent => .null
+        | .partialWrite => .str "partial"
+        | .complete p => Json.mkObj [("materials", dictJson p.materials), ("signer", ofStr p.signer)]),
+      ("final", match d.final with
+        | .absent => .null
+        | .partialWrite => .str "partial"
+        | .complete l => Json.mkObj [("materials", dictJson l.materials), ("products", dictJson l.products), ("signer", ofStr l.signer)])]
+  pure (okJson (Json.mkObj [("outcomes", .arr (r.2.map Json.bool).toArray), ("slots", .arr (slots.map slotJson).toArray)]))
+
 def opCliStatus (req : Json) : Except String Json := do
   let tool ← match (← field req "tool") with
     | .str "verify" => pure Tool.verify | .str "sign" => pure Tool.sign | .str "sign_verify" => pure Tool.signVerify
@@ -637,6 +664,7 @@ def dispatch (op : String) (req : Json) : Except String Json :=
   | "record_stop" => opRecordStop req
   | "in_toto_run" => opInTotoRun req
   | "sign_ops" => opSignOps req
+  | "dir_ops" => opDirOps req
   | _ => throw s!"unknown op {op}"
 
 def handle (line : String) : String :=
